@@ -11,9 +11,11 @@ VARIABLES sc, out, phase
 Lows == {-INF} \cup (-2..2)
 Ups  == (-2..2) \cup {INF}
 Companions == {<<0, -1, 1>>, <<2, -INF, 1>>, <<-2, -1, INF>>, <<1, -INF, INF>>, <<3, 0, 2>>, <<-3, -2, INF>>}
+\* tf: which transforms are in force (0 none, 1 all, 2 variable scales, 3 variable offsets only, 4 non-linear constraint
+\* scaling only, 5 objective scaling only): the user-domain differences do not depend on it
 \* vfree: the variables themselves are unbounded (the bound pairs then only apply to the linear rows and the non-linear
 \* constraints)
-Init == /\ \E v \in -VMax..VMax : \E lb \in Lows : \E ub \in Ups : \E c \in Companions : \E tol \in {0, 1, 2} : \E tf \in BOOLEAN :
+Init == /\ \E v \in -VMax..VMax : \E lb \in Lows : \E ub \in Ups : \E c \in Companions : \E tol \in {0, 1, 2} : \E tf \in 0..5 :
            \E vfree \in BOOLEAN :
              /\ lb <= ub
              /\ (vfree => tol = 1)
